@@ -47,6 +47,15 @@ def main() -> int:
                 rec = json.load(f)
             return mod.replay(camp, rec)
         mod.run(camp, jobs=args.jobs)
+        # replay tier: saved (shrunk) witnesses of earlier failures are re-judged on every run
+        import glob
+
+        home = os.environ.get("VERIF_HOME", ".")
+        for path in sorted(glob.glob(os.path.join(home, "corpus", "regress", f"{prop}-*.json"))):
+            if hasattr(mod, "regress"):
+                with open(path) as f:
+                    mod.regress(camp, json.load(f))
+                camp.count("regression-witness-replayed")
     except SystemExit:
         raise
     except BaseException:
